@@ -178,6 +178,8 @@ fn make_ct(r: &mut Rng, fmt: Fmt) -> Ct {
         5 => Ct { value: Some(b"application/*".to_vec()), class: "wildcard", names: None },
         6 => Ct { value: Some(b"garbage".to_vec()), class: "unparsable", names: None },
         7 => Ct { value: Some([exact, b"\xff"].concat()), class: "non-ascii", names: None },
+        8 => Ct { value: Some([exact, &b"+zip"[..]].concat()), class: "registered+suffix", names: None },
+        9 => Ct { value: Some(if fmt == Fmt::Json { b"application/problem+json".to_vec() } else { b"application/x-jackson-smile+json".to_vec() }), class: "other+suffix", names: None },
         _ => Ct { value: Some(exact.to_vec()), class: "exact", names: Some(fmt) },
     }
 }
@@ -422,7 +424,7 @@ pub fn run(ctx: &Ctx, report: &mut Report) {
     if ctx.replay.is_none() {
         report.floor_cells("json-body-classes", "body/json/", 12);
         report.floor_cells("smile-body-classes", "body/smile/", 5);
-        report.floor_cells("content-type-classes", "content-type/", 9);
+        report.floor_cells("content-type-classes", "content-type/", 11);
         report.floor_cells("chunk-paths", "chunks/", 8);
         report.floor_cells("stream-error-paths", "stream-error/", 8);
     }
